@@ -11,7 +11,7 @@ use std::rc::Rc;
 pub static ENGINE: Engine = Engine {
     prop: "C19",
     level: "model_checking",
-    rule: "explicit-state BFS over ALL pairs (A,B) of subsets of the b-bit universe (b=2: 256 states, b=3: 65536); every state is rebuilt on real BDDSets in a fresh environment by replaying its BFS path from the empty pair; from every state every operation insert(X,e), union/intersect/complement(X,Y) with (X,Y) in {(A,B),(B,A),(A,A),(B,B)}, empty, universe and the query contains(X,e) is executed on the real sets and then membership of EVERY element of BOTH sets is asked forwards and backwards and compared with the reference masks; plus every operation sequence up to depth 4 (5) for b=2 and 3 (4) for b=3 on one long-lived pair without cloning; long insert/query patterns in which one 4-bit set sees all 16 elements; for b = 4 a representative of each of the 222 classes of subsets (under bit permutation / negation / complement) against ALL 65 536 subsets under union / intersect / difference in both operand positions; wider universes (b = 4..8, 16, 32, 64): every sequence of <= 2 (3) operations with membership observed on a pool of six elements (0, 1, 2^(b-1), 2^b-1, ...) against a reference that tracks the pool and 'everything else'. distinct = distinct (state, operation) pairs executed + distinct long-lived sequences",
+    rule: "explicit-state BFS over ALL pairs (A,B) of subsets of the b-bit universe (b=2: 256 states, b=3: 65536); every state is rebuilt on real BDDSets in a fresh environment by replaying its BFS path from the empty pair; from every state every operation insert(X,e), union/intersect/complement(X,Y) with (X,Y) in {(A,B),(B,A),(A,A),(B,B)}, empty, universe and the query contains(X,e) is executed on the real sets and then membership of EVERY element of BOTH sets is asked forwards and backwards and compared with the reference masks; plus every operation sequence up to depth 4 (5) for b=2 and 3 (4) for b=3 on one long-lived pair without cloning; long insert/query patterns in which one 4-bit set sees all 16 elements; for b = 4 a representative of each of the 222 classes of subsets (under bit permutation / negation / complement) against ALL 65 536 subsets under union / intersect / difference in both operand positions; wider universes (b = 4..13, 15..17, 23..25, 31..33, 48, 63, 64): every sequence of <= 2 (3) operations with membership observed on a pool of six elements (0, 1, 2^(b-1), 2^b-1, ...) against a reference that tracks the pool and 'everything else'. distinct = distinct (state, operation) pairs executed + distinct long-lived sequences",
     assumptions: &["reference = bit masks with the usual set operations; complement(X,Y) is set difference X \\ Y as the property states", "bounds: universe of 2^b elements with b <= 3, two sets, sequences on a long-lived pair up to depth 4"],
     max_shards: 64,
     run,
@@ -423,7 +423,7 @@ fn wide_sweep(ctx: &mut Ctx) {
     }
     let depth = if ctx.thorough() { 3 } else { 2 };
     let mut idx = 0u64;
-    for bits in [4usize, 5, 6, 7, 8, 16, 32, 64] {
+    for bits in [4usize, 5, 6, 7, 8, 9, 10, 11, 12, 13, 15, 16, 17, 23, 24, 25, 31, 32, 33, 48, 63, 64] {
         for len in 1..=depth {
             crate::enumerate::for_each_seq(alphabet.len(), len, &mut |_, d| {
                 idx += 1;
